@@ -983,6 +983,12 @@ where
             while let Some(mut msg) = state.queue.pop_front() {
                 handler.discard(DiscardReason::Shutdown, &mut msg);
             }
+            // jobs parked in the per-worker queues are shut down just like the factory's queue
+            for worker_props in state.pool.values_mut() {
+                for mut msg in worker_props.take_queued_jobs() {
+                    handler.discard(DiscardReason::Shutdown, &mut msg);
+                }
+            }
         }
 
         // cleanup the pool and wait for it to exit
